@@ -66,9 +66,13 @@ func NewFed(spec FedSpec, store Store, opts ...gateway.Option) (f *Fed, err erro
 	f = &Fed{Spec: spec, Store: store, ByURL: map[string]*Service{}}
 	var sources []*graphql.RemoteSchema
 	for _, url := range spec.Order {
-		sch, e := gqlparser.LoadSchema(&ast.Source{Input: spec.SDLs[url]})
-		if e != nil {
-			return nil, fmt.Errorf("schema %s: %v", url, e)
+		sch := spec.Parsed[url]
+		if sch == nil {
+			var e error
+			sch, e = gqlparser.LoadSchema(&ast.Source{Input: spec.SDLs[url]})
+			if e != nil {
+				return nil, fmt.Errorf("schema %s: %v", url, e)
+			}
 		}
 		s := &Service{URL: url, SDL: spec.SDLs[url], Schema: sch, Store: store}
 		f.Services = append(f.Services, s)
